@@ -348,6 +348,9 @@ def restart_cases(tier):
         for nit in ((1, 2) if tier == 'quick' else (1, 2, 3)):
             out.append(dict(nres=nres, nit=nit, single=False))
     out.append(dict(nres=2, nit=2, single=True))
+    # a later restart may stop before an earlier one did (re-run from a checkpoint for fewer iterations)
+    out.append(dict(nres=2, nit=2, single=False, nonmono=True))
+    out.append(dict(nres=3, nit=2, single=False, nonmono=True))
     return out
 
 
@@ -356,7 +359,8 @@ def run_restart_case(args):
     case = restart_cases(tier)[idx]
     from aurel import reading
     nres, nit = case['nres'], case['nit']
-    name = f"restart selection: {nres} restarts, {nit} requested iterations" + (' (single-iteration restart)' if case['single'] else '')
+    name = (f"restart selection: {nres} restarts, {nit} requested iterations" + (' (single-iteration restart)' if case['single'] else '')
+            + (' (end iterations not monotone)' if case.get('nonmono') else ''))
     res = dict(name=name, idx=idx, paths=0, queries=0, bad=[], inconclusive=None)
     t0 = time.time()
     ints = [f'lo{r}' for r in range(nres)] + [f'hi{r}' for r in range(nres)] + [f'q{k}' for k in range(nit)]
@@ -369,7 +373,8 @@ def run_restart_case(args):
             c.pre.append(tm.le(lo[r].t, hi[r].t))
             if r:
                 c.pre.append(tm.le(lo[r - 1].t, lo[r].t))         # restarts start later and later
-                c.pre.append(tm.le(hi[r - 1].t, hi[r].t))
+                if not case.get('nonmono'):
+                    c.pre.append(tm.le(hi[r - 1].t, hi[r].t))
         if case['single']:
             c.pre.append(tm.eq(lo[0].t, hi[0].t))
         for x in q:                                              # every requested iteration exists somewhere
